@@ -7,7 +7,7 @@
    implementation side by the monitor (DESIGN.md section 10: partial). *)
 From Coq Require Import ZArith NArith Bool List.
 From Mysync Require Import Gtid.Interval Gtid.GtidSet Pure.Quorum Base.Prog Base.ProgFacts Base.Config
-  Procs.NodeOps Procs.ActiveNodes Procs.Switchover Procs.Manager Proofs.ManagerProofs Proofs.GatesProofs.
+  Procs.NodeOps Procs.ActiveNodes Procs.Switchover Procs.Manager Proofs.ManagerProofs Proofs.GatesProofs Procs.MgrQuorum Proofs.MgrQuorumProofs.
 Import ListNotations.
 Open Scope Z_scope.
 
@@ -101,3 +101,24 @@ Theorem C05_tail_files_only_when_approved : forall cfg env m c tr o,
       runs (approve_failover cfg (tc_cs c) msd (tc_active c) m1 (tc_master c)) tr_a (Done true) /\ incl tr_a tr.
 Proof. exact tail_files_only_when_approved. Qed.
 Print Assumptions C05_tail_files_only_when_approved.
+
+(* the quorum gate counts only what the manager itself reached: a replica of the published list that did not answer the
+   manager's ping (refused, timed out, or answered with a "dubious" error - whatever its own health record says), a host
+   the manager has no state for, and a host without a replication channel each contribute nothing to the count of alive
+   replicas; and the count never exceeds the length of the list *)
+Theorem C05_unreachable_replicas_do_not_count_towards_the_quorum : forall h nodes cs ns,
+  assoc h cs = Some ns -> ns_ping_ok ns = false ->
+  count_alive_ha_slaves_within (h :: nodes) cs = count_alive_ha_slaves_within nodes cs.
+Proof. exact unreachable_not_counted_within. Qed.
+Print Assumptions C05_unreachable_replicas_do_not_count_towards_the_quorum.
+
+Theorem C05_unknown_and_channelless_hosts_do_not_count : forall h nodes cs,
+  (assoc h cs = None \/ exists ns, assoc h cs = Some ns /\ ns_slave ns = None) ->
+  count_alive_ha_slaves_within (h :: nodes) cs = count_alive_ha_slaves_within nodes cs.
+Proof. exact unknown_or_channelless_not_counted. Qed.
+Print Assumptions C05_unknown_and_channelless_hosts_do_not_count.
+
+Theorem C05_quorum_count_is_bounded_by_the_list : forall nodes cs,
+  (0 <= count_alive_ha_slaves_within nodes cs <= Z.of_nat (length nodes))%Z.
+Proof. exact count_within_le. Qed.
+Print Assumptions C05_quorum_count_is_bounded_by_the_list.
